@@ -10,6 +10,7 @@ mod p07;
 mod p11;
 mod p12;
 mod p13;
+mod p14;
 mod p16;
 mod p17;
 mod p08;
@@ -116,6 +117,11 @@ fn main() {
         "C11" => p11::run(&args),
         "C12" => p12::run(&args),
         "C13" => p13::run(&args),
+        "C14" => p14::run(&args),
+        "c14-worker" => {
+            p14::worker();
+            return;
+        }
         "C07" => p07::run(&args),
         "C06" => p06::run(&args),
         "C17" => p17::run(&args),
